@@ -72,6 +72,12 @@ func (fr *Frame) call(st *State, pc Term, ins *ssa.Call) Val {
 		return fr.applyContracts(st, pc, []conPart{{key: key, con: con, names: names, args: args, recv: &recv}}, resT, pos)
 	}
 	callee := c.StaticCallee()
+	if callee != nil && (callee.String() == "sort.Sort" || callee.String() == "sort.Stable") && len(c.Args) == 1 {
+		// sort.Sort(x) with x a slice type converted to sort.Interface: operate on the slice itself
+		if mi, ok := c.Args[0].(*ssa.MakeInterface); ok {
+			args[0] = fr.get(st, mi.X)
+		}
+	}
 	var binds []Val
 	if callee == nil {
 		fv := fr.get(st, c.Value)
@@ -276,7 +282,27 @@ func (fr *Frame) applyContracts(st *State, pc Term, parts []conPart, resT types.
 			}
 		}
 	}
-	res := e.freshVal(st, "r_"+sanitize(parts[len(parts)-1].key), resT, "call", pc)
+	resLabel := "fresh"
+	isFresh := false
+	for _, part := range parts {
+		for _, f := range part.con.Fresh {
+			if f == "ret0" || f == "ret" {
+				isFresh = true
+			}
+		}
+		for _, a := range part.args {
+			resLabel = joinLabel(resLabel, plainLabel(labelOf(a)))
+		}
+		if part.recvArg != nil {
+			resLabel = joinLabel(resLabel, plainLabel(labelOf(*part.recvArg)))
+		} else if part.recv != nil {
+			resLabel = joinLabel(resLabel, plainLabel(labelOf(*part.recv)))
+		}
+	}
+	if isFresh {
+		resLabel = "fresh"
+	}
+	res := e.freshVal(st, "r_"+sanitize(parts[len(parts)-1].key), resT, resLabel, pc)
 	for pi, part := range parts {
 		post := &SpecEnv{e: e, st: st, vars: map[string]Val{}, old: olds[pi]}
 		for i, n := range part.names {
@@ -359,6 +385,7 @@ func (fr *Frame) builtin(st *State, pc Term, ins *ssa.Call, b *ssa.Builtin) Val 
 		if e.prov != nil {
 			e.prov.write(e, dst.R, ins.Pos(), "copy")
 		}
+		dst.R.ElemLabel = joinLabel(elemLabel(dst.R), plainLabel(elemLabel(src.R)))
 		n := e.name("cpn", Ite(Cmp("<", dst.Len, src.Len), dst.Len, src.Len))
 		old := st.mem[dst.R]
 		srcArr := st.mem[src.R]
@@ -412,6 +439,7 @@ func (fr *Frame) appendVals(st *State, s, t Val, sort Sort) Val {
 		label = "spare:" + label
 	}
 	r := e.newRoot("app", 1, d.Elem, label)
+	r.ElemLabel = joinLabel(plainLabel(elemLabel(s.R)), plainLabel(elemLabel(t.R)))
 	if e.binder > 0 {
 		e.fail("append under quantifier")
 	}
@@ -473,6 +501,19 @@ func (fr *Frame) external(st *State, pc Term, callee *ssa.Function, args []Val, 
 	case "fmt.Errorf", "errors.New":
 		c := e.fresh("err", SInt)
 		return termVal(App(SErr, "e_mk", c))
+	case "encoding/json.Marshal", "gopkg.in/yaml.v2.Marshal":
+		// assumed: marshalling jd values (no NaN/Inf, string keys, no cycles) does not fail
+		e.note("assumed: %s returns a nil error on jd values", name)
+		return Val{K: vTuple, Tup: []Val{e.freshVal(st, "marshal", resT.(*types.Tuple).At(0).Type(), "fresh", pc), termVal(Term{"e_nil", SErr})}}
+	case "golang.org/x/exp/slices.Clone", "slices.Clone":
+		if args[0].K == vSlice {
+			src := args[0]
+			t := e.toTerm(st, src)
+			r := e.newRoot("clone", 1, e.p.U.DT(src.S).Elem, "fresh")
+			r.ElemLabel = plainLabel(elemLabel(src.R))
+			st.mem[r] = e.p.U.SArr(t)
+			return Val{K: vSlice, R: r, Off: IntLit(0), Len: src.Len, S: src.S}
+		}
 	case "math.Abs":
 		x := e.toTerm(st, args[0])
 		return termVal(Ite(Cmp("<", x, realLit(0)), Term{"(- " + x.S + ")", SReal}, x))
